@@ -516,13 +516,13 @@ func showInJS(env *env, out io.Writer, value any) error {
 		}
 		return err
 	case reflect.Slice:
-		if b, ok := value.([]byte); ok {
-			w := newStringWriter(out)
-			return escapeBytes(w, b, true)
-		}
 		if v.IsNil() {
 			s = "null"
 			break
+		}
+		if b, ok := value.([]byte); ok {
+			w := newStringWriter(out)
+			return escapeBytes(w, b, true)
 		}
 		fallthrough
 	case reflect.Array:
@@ -719,13 +719,13 @@ func showInJSON(env *env, out io.Writer, value any) error {
 		}
 		return err
 	case reflect.Slice:
-		if b, ok := value.([]byte); ok {
-			w := newStringWriter(out)
-			return escapeBytes(w, b, true)
-		}
 		if v.IsNil() {
 			s = "null"
 			break
+		}
+		if b, ok := value.([]byte); ok {
+			w := newStringWriter(out)
+			return escapeBytes(w, b, true)
 		}
 		fallthrough
 	case reflect.Array:
